@@ -24,7 +24,7 @@
 //! depth update WITHOUT levels: it continues (or starts) the chain like any other update.
 //!
 //! Two further layers live in `c06_init.rs` (loopback venue): the real `ExchangeWsStream::init` for the spot and
-//! the futures transformer, and the real `init_market_stream` (termination on terminal errors + automatic
+//! the futures transformer (one instrument, and two instruments on one connection), and the real `init_market_stream` (termination on terminal errors + automatic
 //! re-initialisation) around the spot transformer.
 //!
 //! Oracle = venue-rule monitor written from the statement (per instrument; `pos` = u of the last update the
@@ -723,12 +723,12 @@ pub fn run(ctx: &Ctx) -> Outcome {
             "reinit_layer_connections_accepted": reinit.connections,
             "reinit_layer_snapshot_fetches": reinit.snapshot_fetches,
             "reinit_layer_items": reinit.trace,
-            "reinit_layer_rule": "real init_market_stream (reconnecting stream + termination on is_terminal errors) around the real ExchangeWsStream::init and the real Binance spot L2 transformer, for a harness exchange type with a scripted snapshot fetcher, against a loopback venue: connection 1 delivers updates 1,3,4 after a snapshot at 0; the item after the sequence error must be the snapshot of a new initialisation (connection 2: snapshot at 2, updates 2,3,4), never another item of the old connection; book == venue book at its sequence while not told invalid",
+            "reinit_layer_rule": "real init_market_stream (reconnecting stream + termination on is_terminal errors) around the real ExchangeWsStream::init and the real Binance spot L2 transformer, for a harness exchange type with a scripted snapshot fetcher, against a loopback venue: connection 1 delivers updates 1,3,4 after a snapshot at 0; the item after the sequence error must be the snapshot of a new initialisation (connection 2: snapshot at 2, updates 2,3,4), never another item of the old connection; book == venue book at its sequence while not told invalid; second script: connection 1 = snapshot 0 + updates 1,2,4, connection 2 = snapshot 3 + updates 3,4 - the new snapshot no longer contains a level the invalid book holds (the book is replaced, not merged into)",
             "init_layer_executions": init.executions,
             "init_layer_distinct_event_traces": init.distinct_outcomes,
             "init_layer_events": init.events,
             "init_layer_samples": init.samples,
-            "init_layer_rule": "real ExchangeWsStream::<BinanceSpotOrderBooksL2Transformer>::init and ::<BinanceFuturesUsdOrderBooksL2Transformer>::init against a scripted loopback venue: updates 1..4 in order (or starting at 2) after the subscription confirmation, REST snapshot at S in 0..=4 (lagging or leading the socket); consumer applies the yielded events in order; after the snapshot the book must equal the venue book at its sequence unless a sequence error was yielded; a delivery that contains the update covering the snapshot never errors; a delivery that starts beyond it yields the sequence error",
+            "init_layer_rule": "real ExchangeWsStream::<BinanceSpotOrderBooksL2Transformer>::init and ::<BinanceFuturesUsdOrderBooksL2Transformer>::init against a scripted loopback venue: updates 1..4 in order (or starting at 2) after the subscription confirmation, REST snapshot at S in 0..=4 (lagging or leading the socket); the same with a SECOND instrument subscribed on the connection (own book evolution, own start 1/2, own snapshot point; updates of the two instruments alternate on the socket); consumer applies the yielded events in order to one book per instrument; once an instrument's snapshot was applied its book must equal the venue book at its sequence unless a sequence error was yielded; deliveries that contain the update covering the snapshot (for every instrument) never error; a delivery that starts beyond it yields the sequence error; every subscribed instrument gets its snapshot",
             "evaluations": sequences,
             "steps": steps,
             "configurations": n_cfg,
@@ -744,7 +744,7 @@ pub fn run(ctx: &Ctx) -> Outcome {
             "venue evolutions are the fixed scripts of this file (4 scripts, every composition into updates, every snapshot point); ids are consecutive per instrument (futures also with holes); half of the configurations use ids around 1000, half ids on both sides of 2^32".into(),
             "one script has a change id that touches no level, so one of its updates carries no level at all: such an update continues / covers the chain like any other; if it produces no event the implementation may have consumed or ignored it (both positions are carried by the monitor); admitting it across a gap is still a chain violation".into(),
             "an update carries the absolute amounts (as of its last id) of exactly the levels touched in its id range, as the venue documents".into(),
-            "REST snapshots are well-formed; in the transformer layer they are delivered to the consumer before the first depth update; the ordering of buffered events inside ExchangeWsStream::init is exercised by the separate loopback layer (spot and futures)".into(),
+            "REST snapshots are well-formed; in the transformer layer they are delivered to the consumer before the first depth update; the ordering of buffered events inside ExchangeWsStream::init is exercised by the separate loopback layer (spot and futures; one and two instruments per connection - in a two-instrument script the consumer's connection ends at the first sequence error, as with_termination_on_error makes it)".into(),
             "re-initialisation layer: init_market_stream is run for a harness exchange type (Binance's protocol, scripted REST fetcher) because Binance's own fetcher has a constant REST URL; the transformer, sequencers, stream initialisation and reconnect / termination combinators are the real ones; a stream that stays silent for 30 s after a sequence error while the venue accepts connections counts as not re-initialising".into(),
             "a stale or duplicated message after the chain has started may be dropped or answered with an error (the statement leaves it open)".into(),
         ],
